@@ -10,6 +10,10 @@
 //!     (run 0 and the first run `k` that differs from it; `d` = number of distinct behaviours among the n runs)
 //! `<id> bad=<reason>` when the case line cannot be used (never silently dropped).
 //!
+//! `hx c13 expr`: one case per line `<id> <enc expression text>`; the text is parsed with the real expression parser
+//! (`ValueExpr::try_from(&str)`, what `Ledger::eval` does with the string `EvalCmd::run` assembles) and printed as the
+//! tree `drv` decodes: `<id> expr=<sexp>` | `<id> expr=-` (does not parse) | `<id> expr=(panic <msg>)`.
+//!
 //! Status is `exit:<code>`, `signal:<n>` or `timeout`.  The property is byte identity; the single normalisation is
 //! the wall-clock timestamp that env_logger puts in front of a log line on stderr
 //! (`[2026-09-29T01:36:17Z ERROR ...` -> `[<ts> ERROR ...`): a log line is not the run's error text, and its
@@ -126,7 +130,42 @@ fn default_bin() -> String {
     "/verif/work/target/debug/okane".to_string()
 }
 
+/// `hx c13 expr`
+fn run_expr(out: &mut dyn Write) -> i32 {
+    use okane_core::syntax::expr;
+    crate::sx::quiet_panics();
+    let stdin = std::io::stdin();
+    for line in stdin.lock().lines() {
+        let line = match line {
+            Ok(l) => l,
+            Err(_) => break,
+        };
+        let words: Vec<&str> = line.split(' ').filter(|w| !w.is_empty()).collect();
+        if words.is_empty() {
+            continue;
+        }
+        let rec = match words.get(1).and_then(|w| sx::dec(w)) {
+            None => "bad=encoding".to_string(),
+            Some(text) => {
+                let r = sx::catch(move || match expr::ValueExpr::try_from(text.as_str()) {
+                    Ok(v) => crate::tree::vexpr(&v),
+                    Err(_) => "-".to_string(),
+                });
+                match r {
+                    Ok(t) => format!("expr={}", t),
+                    Err(m) => format!("expr=(panic {})", sx::enc(&m)),
+                }
+            }
+        };
+        let _ = writeln!(out, "{} {}", words[0], rec);
+    }
+    0
+}
+
 pub fn run(args: &[String], out: &mut dyn Write) -> i32 {
+    if args.first().map(|a| a.as_str()) == Some("expr") {
+        return run_expr(out);
+    }
     let bin = args.first().cloned().unwrap_or_else(default_bin);
     let stdin = std::io::stdin();
     for line in stdin.lock().lines() {
